@@ -9,16 +9,7 @@ from ..model import ClassRef
 
 LEVEL = 'other'
 EXPLANATION = (
-    'Static analysis (paired-update / check-before-mutate rules over the three containers). (R1) qset: every method '
-    'that changes the membership of the list `_seq_` changes the set `_set_` with the same arriving/leaving values; '
-    'linkseq/linqset: every linkseq method that rewrites a link value or the chain ends is overridden by linqset so that '
-    'the hash table follows (seed/spot/unlink/clear/copy/__setitem__), each override touching the table with the link\'s '
-    'value; Predicates: the lookup index is updated in _hook_done for arriving and leaving members and follows clear/copy. '
-    '(R2) in every single-element mutator all raising statements and the _hook_check call precede the first write (or the '
-    'write sits in a try/except rollback) and _hook_done follows with the same arguments. (R3) bulk stores into the '
-    'sequence are preceded by a uniqueness witness for the arriving values. Agreement with a list model over arbitrary '
-    'operation sequences is declined; (R5/R6) however the *inductive step* is decided: each mutator definition is folded over every small '
-    'pre-state satisfying the invariant and every small argument and must re-establish it and agree with the list model.')
+    'Static analysis (black-box inductive step by folding). qset, linqset (links, hash table, wedge) and the predicate store are rebuilt as MRO-bound classes from their own method definitions (collections.abc mixins real); every operation of the mutator API is applied to every small state and the result is observed only through the read API (iteration, len, in, indexing, reversed; for the predicate store lookup by every reference): it agrees with the list-without-duplicates model, a rejected single operation changes nothing, copies are independent, and the predicate store never holds two predicates with one symbol and different arities. (R5/R6) the earlier white-box step checks of the qset mutators and linqset.__setitem__. Histories are covered by induction over the step, not by enumeration.')
 TRUSTED = ['CPython ast', 'semantics of list/set/dict methods']
 ASSUMPTIONS = ['MutableSequence mixin methods (append, extend, pop, remove, +=) reach the container only through insert/__delitem__/__setitem__']
 
